@@ -140,3 +140,58 @@ Proof.
     rewrite (sumn2_ext r c (fun s i => vnth (s * c + i) Ssi) (er_S X c)) by (intros s i Hs Hi; rewrite ES by assumption; reflexivity).
     rewrite HL. replace (r * c + 1 - 1)%nat with (r * c)%nat by lia. reflexivity.
 Qed.
+
+(* ---------------- heterogeneous pairwise ---------------- *)
+Lemma vnth_slice a b k (V : vec) : (k < b - a)%nat -> vnth k (slice a b V) = vnth (a + k) V.
+Proof. intros H. unfold slice. change (firstn (b - a) (skipn a V)) with (slice_to (b - a) (slice_from a V)). rewrite vnth_slice_to by exact H. apply vnth_slice_from. Qed.
+
+Theorem gen_dSIS_heterogeneous_pairwise X t Nk NkNl tau gamma Ks :
+  length Nk = length Ks ->
+  veq (g_dSIS_heterogeneous_pairwise X t Nk NkNl tau gamma Ks) (dSIS_heterogeneous_pairwise X Nk NkNl tau gamma Ks t).
+Proof.
+  intros LN. unfold g_dSIS_heterogeneous_pairwise, dSIS_heterogeneous_pairwise, hs_kc. cbv zeta. rewrite LN.
+  set (kc := length Ks).
+  set (Sk := slice_to kc X). set (SkSl := slice kc (kc + kc * kc) X). set (SkIl := slice (kc + kc * kc) (kc + 2 * (kc * kc)) X).
+  assert (A1 : forall i, (i < kc)%nat -> vnth i Sk = hs_Sk X i) by (intros i Hi; unfold Sk, hs_Sk; apply vnth_slice_to; exact Hi).
+  assert (A2 : forall i j, (i < kc)%nat -> (j < kc)%nat -> vnth (i * kc + j) SkSl = hs_SkSl X Ks i j).
+  { intros i j Hi Hj. unfold SkSl, hs_SkSl, hs_kc. fold kc. rewrite vnth_slice by nia. f_equal. lia. }
+  assert (A3 : forall i j, (i < kc)%nat -> (j < kc)%nat -> vnth (i * kc + j) SkIl = hs_SkIl X Ks i j).
+  { intros i j Hi Hj. unfold SkIl, hs_SkIl, hs_kc. fold kc. rewrite vnth_slice by nia. f_equal. lia. }
+  assert (A4 : forall i, (i < kc)%nat -> sumn kc (fun j_ => vnth (i * kc + j_) SkIl) == hs_SkI X Ks i)
+    by (intros i Hi; unfold hs_SkI, hs_kc; fold kc; apply sumn_ext; intros j Hj; rewrite A3 by assumption; reflexivity).
+  apply veq_app; [|apply veq_app].
+  - apply veq_tab. intros i Hi. cbv beta. rewrite (A4 i Hi), (A1 i Hi). unfold hs_dSk, hs_Ik. reflexivity.
+  - apply veq_tab2. intros i j Hi Hj. cbv beta.
+    rewrite (A4 i Hi), (A4 j Hj), (A1 i Hi), (A1 j Hj), (A2 i j Hi Hj), (A2 j i Hj Hi), (A3 i j Hi Hj), (A3 j i Hj Hi).
+    unfold hs_dSkSl, hs_SkSlI, hs_kxSk, Qdiv. ring.
+  - apply veq_tab2. intros i j Hi Hj. cbv beta.
+    rewrite (A4 i Hi), (A4 j Hj), (A1 i Hi), (A1 j Hj), (A2 i j Hi Hj), (A3 i j Hi Hj), (A3 j i Hj Hi).
+    unfold hs_dSkIl, hs_IkIl, hs_SkSlI, hs_ISkIl, hs_kxSk, hs_kc, Qdiv. fold kc. ring.
+Qed.
+
+Theorem gen_dSIR_heterogeneous_pairwise X t tau gamma Nk Ks :
+  veq (g_dSIR_heterogeneous_pairwise X t tau gamma Nk Ks) (dSIR_heterogeneous_pairwise X tau gamma Ks t).
+Proof.
+  unfold g_dSIR_heterogeneous_pairwise, dSIR_heterogeneous_pairwise, hr_kc. cbv zeta.
+  set (kc := length Ks).
+  set (Sk := slice_to kc X). set (Ik := slice kc (2 * kc) X).
+  set (SkSl := slice (2 * kc) (2 * kc + kc * kc) X). set (SkIl := slice (2 * kc + kc * kc) (2 * kc + 2 * (kc * kc)) X).
+  assert (A1 : forall i, (i < kc)%nat -> vnth i Sk = hr_Sk X i) by (intros i Hi; unfold Sk, hr_Sk; apply vnth_slice_to; exact Hi).
+  assert (A0 : forall i, (i < kc)%nat -> vnth i Ik = hr_Ik X Ks i).
+  { intros i Hi. unfold Ik, hr_Ik, hr_kc. fold kc. rewrite vnth_slice by lia. reflexivity. }
+  assert (A2 : forall i j, (i < kc)%nat -> (j < kc)%nat -> vnth (i * kc + j) SkSl = hr_SkSl X Ks i j).
+  { intros i j Hi Hj. unfold SkSl, hr_SkSl, hr_kc. fold kc. rewrite vnth_slice by nia. f_equal. lia. }
+  assert (A3 : forall i j, (i < kc)%nat -> (j < kc)%nat -> vnth (i * kc + j) SkIl = hr_SkIl X Ks i j).
+  { intros i j Hi Hj. unfold SkIl, hr_SkIl, hr_kc. fold kc. rewrite vnth_slice by nia. f_equal. lia. }
+  assert (A4 : forall i, (i < kc)%nat -> sumn kc (fun j_ => vnth (i * kc + j_) SkIl) == hr_SkI X Ks i)
+    by (intros i Hi; unfold hr_SkI, hr_kc; fold kc; apply sumn_ext; intros j Hj; rewrite A3 by assumption; reflexivity).
+  apply veq_app; [|apply veq_app; [|apply veq_app]].
+  - apply veq_tab. intros i Hi. cbv beta. rewrite (A4 i Hi). unfold hr_dSk. reflexivity.
+  - apply veq_tab. intros i Hi. cbv beta. rewrite (A4 i Hi), (A0 i Hi). unfold hr_dIk. reflexivity.
+  - apply veq_tab2. intros i j Hi Hj. cbv beta.
+    rewrite (A4 i Hi), (A4 j Hj), (A1 i Hi), (A1 j Hj), (A2 i j Hi Hj), (A2 j i Hj Hi).
+    unfold hr_dSkSl, hr_SkSlI, hr_den, Qdiv. ring.
+  - apply veq_tab2. intros i j Hi Hj. cbv beta.
+    rewrite (A4 i Hi), (A4 j Hj), (A1 i Hi), (A1 j Hj), (A2 i j Hi Hj), (A3 i j Hi Hj).
+    unfold hr_dSkIl, hr_SkSlI, hr_ISkIl, hr_den, Qdiv. ring.
+Qed.
